@@ -118,11 +118,8 @@ func checkC11(r *Run) {
 				}
 			} else if obj := objOf(info, sl.High); obj != nil {
 				// end clamped: end := total+chunkSize; if end > len(p) { end = len(p) }
-				ok2, w := clampShape(r, info, ch, sl.High, total+" + int("+csz+")", "len("+pN+")")
-				if !ok2 {
-					ok2, w = clampShape(r, info, ch, sl.High, total+"+int("+csz+")", "len("+pN+")")
-				}
-				highOK, why = ok2, w
+				ok2, w := clampHolds(r.L, res, ch, sl.High, clampSpec{Src: total + " + int(" + csz + ")", LimitStr: "len(" + pN + ")"})
+				highOK, why = ok2, "upper bound "+r.L.str(sl.High)+" "+w
 			} else {
 				why = "upper bound " + res.str(sl.High) + " is neither total+chunkSize nor a clamped end"
 			}
